@@ -73,6 +73,6 @@ def keywordCall (t : Truth) (args : List Val) : Bool := args.length ≤ t.implic
 /-- C05: the callable is exempt from the keyword-only discipline (operator methods outside the documented list, property
     setters) -/
 def exempt (f : Fn) (t : Truth) : Bool :=
-  t.realSetter || (f.name.startsWith "__" && f.name.endsWith "__" && !PedVerif.Gen.CallTables.requireKwargsDunders.contains f.name)
+  t.realSetter || (f.startsDunder && f.endsDunder && !PedVerif.Gen.CallTables.requireKwargsDunders.contains f.name)
 
 end PedVerif.Call
